@@ -429,6 +429,73 @@ func runC19(c *Ctx) {
 				"the GET body preparer returns no bytes", "the body preparer used for GET returns body bytes")
 		}
 	})
+
+	// ---------------------------------------------------------------- C19.4
+	// The GET message is decoded from the query string as the client sent it.  The request's
+	// URL is rewritten for the backend before a streamed/late decode happens, so the parsed
+	// query must be kept: the accessor returns the kept value, or parses AND keeps.
+	c.Rule("C19.4", "the parsed query of the client's request is kept on first use (later URL rewriting cannot change what a GET message decodes to)", 2)
+	qv := p.MustFunc("(*operation).queryValues")
+	qvF := p.MustField("operation", "queryVars")
+	nRet := 0
+	ForEachInstr(qv, func(in ssa.Instruction) {
+		ret, ok := in.(*ssa.Return)
+		if !ok || ret.Block() == qv.Recover {
+			return
+		}
+		nRet++
+		good := true
+		why := ""
+		for _, l := range Origins(ReturnValues(ret)[0]) {
+			switch {
+			case l.Kind == "load" && l.Field == qvF:
+			case l.Kind == "nil":
+			case l.Kind == "call" && IsCallTo(l.Call, "(*net/url.URL).Query"):
+				// must be stored into the kept cell on every path from the parse to this return
+				cv, _ := l.Call.(*ssa.Call)
+				keeps := func(x ssa.Instruction) bool {
+					st, ok := x.(*ssa.Store)
+					if !ok {
+						return false
+					}
+					fa, ok := st.Addr.(*ssa.FieldAddr)
+					return ok && FieldOfAddr(fa) == qvF && cv != nil && st.Val == ssa.Value(cv)
+				}
+				found, _ := PathQuery{Target: func(x ssa.Instruction) bool { return x == ssa.Instruction(ret) }, Avoid: keeps}.Search(qv, l.Call)
+				if found {
+					good, why = false, "a freshly parsed query is returned without being kept"
+				}
+			default:
+				good, why = false, "the returned values are neither the kept query nor a parse of the request's query"
+			}
+		}
+		c.Check(good, "C19.4", FuncName(qv), "returns-kept-query", ret.Pos(),
+			"returns the kept query values, or a fresh parse that was stored in the kept cell first",
+			why+": once the URL has been rewritten for the backend a later call parses the rewritten (empty) query and a GET message decodes to something else than the same content sent by POST")
+	})
+	if nRet == 0 {
+		c.Bad("C19.4", FuncName(qv), "returns-kept-query", qv.Pos(), "no return found: shape changed")
+	}
+	// the kept cell is written only by the accessor and at construction from the classifier's parse
+	for _, fn := range p.Funcs {
+		for _, w := range FieldWrites(fn) {
+			if w.Field != qvF || w.Fresh {
+				continue
+			}
+			okW := true
+			for _, l := range Origins(w.Store.Val) {
+				switch {
+				case l.Kind == "call" && IsCallTo(l.Call, "(*net/url.URL).Query"):
+				case l.Kind == "call" && l.Call.Common().StaticCallee() != nil && l.Call.Common().StaticCallee().Name() == "classifyRequest":
+				case l.Kind == "param" || l.Kind == "nil" || (l.Kind == "load" && l.Field == qvF):
+				default:
+					okW = false
+				}
+			}
+			c.Check(okW, "C19.4", FuncName(fn), "kept-query-source", w.Store.Pos(),
+				"the kept query is a parse of the request's own query", "the kept query values are stored from something other than a parse of the request's query")
+		}
+	}
 }
 
 func boolStr(b bool) string {
